@@ -126,6 +126,26 @@ def traced_container_fails(case):
         return utils.ndarray2utpm(els)
     ux = UTPM(x0.copy())
     want = build(ux)
+    if case.get('rec') == 'ndarray':
+        # the graph recorded at a PLAIN array point (Function(ndarray)): value while recording and the replay on a polynomial
+        p0 = x0[0, 0].copy()
+        wantp = build(p0)
+        cgp = algopy.CGraph()
+        fp = algopy.Function(p0.copy())
+        try:
+            fyp = build(fp)
+        except Exception as ex:
+            cgp.trace_off()
+            return 'traced-container-exception: ndarray2utpm of elements traced at a plain array point (%s) raised %s' % (kind, type(ex).__name__ + ':' + str(ex)[:60])
+        cgp.trace_off()
+        cgp.independentFunctionList = [fp]
+        cgp.dependentFunctionList = [fyp]
+        if np.asarray(fyp.x).shape != np.asarray(wantp).shape or not np.array_equal(np.asarray(fyp.x), np.asarray(wantp)):
+            return 'traced-container-value: the conversion traced at a plain array point differs from the conversion of the untraced elements (%s)' % kind
+        gotp = cgp.function([UTPM(x0.copy())])[0]
+        if not isinstance(gotp, UTPM) or gotp.data.shape != want.data.shape or not np.array_equal(gotp.data, want.data):
+            return 'traced-container-replay: the replay of a graph recorded at a plain array point differs from the direct conversion (%s)' % kind
+        return None
     cg = algopy.CGraph()
     fx = algopy.Function(UTPM(x0.copy()))
     try:
@@ -514,7 +534,7 @@ def run(ctx):
                 ctx.report(case, 'failure', f)
     for kind in ('plain', 'const-first', 'complex-later', 'complex-constant-later'):
         for D_, P_ in ((1, 1), (3, 2)):
-            case = {'op': 'traced-container', 'kind': kind, 'D': D_, 'P': P_, 'x': rand_coeffs(ctx.rng, (D_, P_, 3), -2, 2)}
+            case = {'op': 'traced-container', 'kind': kind, 'D': D_, 'P': P_, 'x': rand_coeffs(ctx.rng, (D_, P_, 3), -2, 2), 'rec': 'ndarray' if D_ == 1 else 'utpm'}
             ctx.evaluations += 1
             ctx.count('op=traced-container')
             try:
